@@ -495,6 +495,22 @@ func c17Run(c *Ctx) {
 			c17Judge(c, &Case{Gen: "min-max-long-lists", Src: src, X: map[string]string{"fn": "minmax", "nargs": fmt.Sprint(n)}})
 		}
 	}
+	// the same through the binary with data lines far beyond 64 KiB (a generated list of readings on one physical line)
+	for _, n := range []int{1000, 14000, 30000} {
+		el := make([]string, n)
+		for i := range el {
+			el[i] = fmt.Sprintf("%d.%d", (i*37)%1009, i%10)
+		}
+		list := strings.Join(el, ", ")
+		for _, src := range []string{
+			Lines(Print(`"first"`), Var("m", "["+list+"]"), Print(BI("len", "m")), Print(BI("max", "m")), Print(BI("min", "m")), Print(BI("sqrt", "16"))),
+			Lines(Print(`"first"`), Print(B["max"]+"("+list+")"), Print(B["min"]+"("+list+")"), Print(BI("sqrt", "16"))),
+		} {
+			if c.Mine() {
+				c17Judge(c, &Case{Gen: "min-max-long-lists-cli", Mode: "cli", Src: src, X: map[string]string{"fn": "minmax", "nargs": fmt.Sprint(n)}})
+			}
+		}
+	}
 	// 3e3. any expression may be an argument (an assignment included); ঘাত of a power equals the ** chain
 	for _, src := range []string{
 		Lines(Var("k", "0"), Print(BI("sqrt", "k = 16")), Print("k"), Var("big", "0"), Print(BI("max", "big = 3", "2")), Print(BI("abs", "k = k - 20")), Print(BI("pow", "k = 2", "big = 10")), Print("[k, big]")),
@@ -509,6 +525,10 @@ func c17Run(c *Ctx) {
 		Lines(Fun("rootsum", "xs", " "+K["var"]+" s = 0, i = 0; "+While("i < "+BI("len", "xs"), "{ "+Var("x", "xs[i]")+" i = i + 1; "+If("x < 0", "{ "+Continue()+" }")+" s = s + "+BI("sqrt", "x")+"; }")+" "+Ret(BI("round", "s"))+" "), Print("rootsum([16, -4, 9, -1, 25])"), Print(BI("pow", "rootsum([4, -4])", "2"))),
 		Lines(Var("xs", "[16, -4, 9, -1, 25]"), Var("i", "0"), While("i < "+BI("len", "xs"), "{ "+Var("x", "xs[i]")+" i = i + 1; "+If("x < 0", "{ "+Continue()+" }")+" "+Print(BI("sqrt", "x"))+" }"), Print(BI("max", "xs")), For(Var("j", "0"), "j < 5", "j = j + 1", "{ "+If("xs[j] > 0", Continue())+" "+Print(BI("abs", "xs[j]"))+" }")),
 		Lines("// readings, one per line", K["var"]+" m = [\n    12.5,\n    18.25,\n    -3.5,\n    9\n];", Print(BI("max", "m")), Print(BI("min", "m")), Print(BI("abs", BI("min", "m"))), K["var"]+" pt = {\n  x: 3,\n  y: 4\n};", Print(BI("sqrt", BI("pow", "pt.x", "2")+" + "+BI("pow", "pt.y", "2"))), Print(BI("len", "m"))),
+		// guard-style value-less returns: what such a call yields is nil, whatever an earlier call returned
+		Lines(Fun("avg", "xs", " "+If(BI("len", "xs")+" == 0", "{ "+Ret("")+" }")+" "+Var("t", "0")+" "+For(Var("i", "0"), "i < "+BI("len", "xs"), "i = i + 1", "{ t = t + xs[i]; }")+" "+Ret("t / "+BI("len", "xs"))+" "), Print(BI("round", "avg([2, 4, 9])")), Print(`"before"`), Print(BI("round", "avg([])")), Print(`"AFTER"`)),
+		Lines(Fun("safe", "x", " "+If("x < 0", "{ "+Ret("")+" }")+" "+Ret(BI("sqrt", "x"))+" "), Print("safe(16)"), Print("safe(-9)"), Print(`"before"`), Print(BI("max", "1", "safe(-9)", "2")), Print(`"AFTER"`)),
+		Lines(Fun("one", "", " "+Ret("1")+" "), Fun("none", "", " "+Ret("")+" "), Print("one()"), Print("none()"), Print("[one(), none(), one()]"), Print(`"before"`), Print(BI("abs", "none()")), Print(`"AFTER"`)),
 		Lines(Print(BI("max", "[\n 1,\n 5,\n 2\n]")), Print(BI("min", "\n 4,\n 2\n")), Var("e", "[\n]"), Print(BI("len", "e"))),
 	} {
 		if c.Mine() {
